@@ -29,7 +29,7 @@ SHRINK_FIELDS = ("ops",)
 RULE = ("'api' cases: one case = all sequences of length <= depth that start with a given 2-op prefix over the alphabet {A anon "
         "send, P plain send, R matching circuit becomes ready, W non-matching circuit ready (wrong hop count or exit without "
         "IPv8 flag), C circuit closing, X circuit removed, D tunnel community detached, T attached, N anonymity off, Y on, Q "
-        "burst of 101 anon sends, O a second TunnelEndpoint of the process toggles the same prefix and sends}; depth 5 in quick, 6 in thorough (complete, 3 M sequences), lengths 7..10 sampled. 'net' cases: seeded sequences of <= 30 operations "
+        "burst of 101 anon sends, F/G a second overlay prefix of the SAME endpoint has anonymity switched off/on (possibly redundantly) and sends, O a second TunnelEndpoint of the process toggles the same prefix and sends}; depth 5 in quick, 6 in thorough (complete, 3 M sequences), lengths 7..10 sampled. 'net' cases: seeded sequences of <= 30 operations "
         "on a real node with real circuits incl. hop crashes. Non-trivial = a sequence with an anonymized send while no usable "
         "circuit exists, or after a circuit closed, or with a non-empty queue; distinct by operation string.")
 COMPONENTS = {"real": ["TunnelEndpoint (send, set_anonymity, set_tunnel_community, send_queue, notify_listeners)",
@@ -40,11 +40,12 @@ COMPONENTS = {"real": ["TunnelEndpoint (send, set_anonymity, set_tunnel_communit
 ASSUMPTIONS = ["while anonymity is switched off for a prefix its packets may use the raw socket (that is what the switch means)"]
 REACH = ["anon_send_no_circuit_queued", "anon_send_over_ready_circuit", "queue_overflow", "detached_drop", "plain_raw_ok",
          "circuit_closing_with_queue", "net_anon_delivered_via_exit", "net_hop_crashed", "wrong_circuit_not_used",
-         "second_endpoint_same_prefix", "net_blind_exit_circuit_ready", "service_with_statistics", "service_without_statistics", "anonymized_overlay_restarted", "circuits_removed_right_after_send_with_backlog", "queue_overflow_many_destinations", "net_anon_reply_received_through_tunnel"]
+         "second_endpoint_same_prefix", "second_prefix_same_endpoint", "net_blind_exit_circuit_ready", "service_with_statistics", "service_without_statistics", "anonymized_overlay_restarted", "circuits_removed_right_after_send_with_backlog", "queue_overflow_many_destinations", "net_anon_reply_received_through_tunnel"]
 
-ALPHA = "APRWCXDTNYQO"
+ALPHA = "AFGPRWCXDTNYQO"
 ANON_PREFIX = b"\x00\x02" + b"\xa1" * 20
 PLAIN_PREFIX = b"\x00\x02" + b"\xb2" * 20
+SECOND_PREFIX = b"\x00\x02" + b"\xc3" * 20     # another overlay on the same TunnelEndpoint with its own anonymity switch
 EXIT_IPV8 = 4
 
 
@@ -52,7 +53,7 @@ def cases(tier: str, base_seed: int):  # noqa: ANN201
     # quick: all sequences up to length 5 over 10 symbols; thorough: all up to length 6 over 12 symbols (3 M sequences), longer ones
     # (7..10) sampled - length 7 complete would be 36 M sequences, about an hour on this machine
     depth = 5 if tier == "quick" else 6
-    alpha = ALPHA if tier == "thorough" else "APRWCXDNQO"
+    alpha = ALPHA if tier == "thorough" else "AFGPRWCXDNQO"
     n = 0
     net_i = 0
     yield {"scenario": "net", "seed": base_seed + 8000, "knobs": {"lat_jit": 0.0, "loss": 0.0, "timer_jitter": 0.0}, "expect_reply": True,
@@ -66,8 +67,11 @@ def cases(tier: str, base_seed: int):  # noqa: ANN201
         yield {"scenario": "api", "seed": base_seed, "knobs": {}, "prefix": "", "depth": plen - 1, "alpha": alpha}
     for pre in prefixes:
         n += 1
-        yield {"scenario": "api", "seed": base_seed + n, "knobs": {}, "prefix": pre, "depth": depth, "alpha": alpha}
-        yield {"scenario": "api", "seed": base_seed + n, "knobs": {}, "prefix": pre, "depth": depth, "alpha": alpha, "hops": 2}
+        # a burst (Q) costs 101 sends: split those subtrees one level further so that no single case runs for half a minute
+        subs = [(pre, len(pre))] + [(pre + x, depth) for x in alpha] if "Q" in pre else [(pre, depth)]
+        for sub, dep in subs:
+            yield {"scenario": "api", "seed": base_seed + n, "knobs": {}, "prefix": sub, "depth": dep, "alpha": alpha}
+            yield {"scenario": "api", "seed": base_seed + n, "knobs": {}, "prefix": sub, "depth": dep, "alpha": alpha, "hops": 2}
         if n % 4 == 0:
             net_i += 1
             yield _net_case(base_seed + 5000 + net_i)
@@ -188,6 +192,7 @@ def run_api(c: Case, case: dict) -> dict:  # noqa: C901, PLR0915
         tc2 = TC()
         ep2.set_tunnel_community(tc2, 1)
         other_on = None
+        second_on = False
 
         def anon_send() -> None:
             nonlocal n_anon
@@ -267,6 +272,27 @@ def run_api(c: Case, case: dict) -> dict:  # noqa: C901, PLR0915
                               f"second endpoint has anonymity off for the prefix but its packet did not use its raw socket "
                               f"(tunnelled {len(tc2.sent) - s2}, queued {len(ep2.send_queue) - q2}) after '{seq[:k]}'")
                 world.probe("second_endpoint_same_prefix")
+            elif ch == "F":
+                # another overlay of the same endpoint has its anonymity switched off (again): the first prefix must not notice
+                ep.set_anonymity(SECOND_PREFIX, False)
+                second_on = False
+                world.probe("second_prefix_same_endpoint")
+            elif ch == "G":
+                # ... or switched on (again), after which its packets must not use the raw socket either
+                ep.set_anonymity(SECOND_PREFIX, True)
+                second_on = True
+                world.probe("second_prefix_same_endpoint")
+            if ch in "FG":
+                r0 = len(raw.sent)
+                pkt = SECOND_PREFIX + b"\x03" + k.to_bytes(2, "big")
+                handed[pkt] = handed.get(pkt, 0) + 1        # if queued it may be flushed by a later send of either prefix
+                ep.send(("7.7.7.7", 7), pkt)
+                raw_now = any(p2 == pkt for _a, p2 in raw.sent[r0:])
+                if second_on and raw_now:
+                    c.violate("never_raw", "anonymized_packet_sent_on_raw_socket", f"second prefix of the endpoint, after '{seq[:k]}'")
+                if not second_on and not raw_now:
+                    c.violate("plain_unaffected", "plain_overlay_traffic_altered",
+                              f"second prefix has anonymity off but its packet did not use the raw socket after '{seq[:k]}'")
             elif ch == "C":
                 for x in tc.circuits.values():
                     if x.state == "READY":
